@@ -165,7 +165,7 @@ func c16RunScenario(m *vk.M, idx int, sc c16Scenario) (st c16Stats, ok bool) {
 		}
 		for _, op := range []string{"add", "wait", "flush"} {
 			if stuck[op] > 0 {
-				m.Violate("C16:hang:"+op, desc, "%d goroutine(s) inside %s made no progress for %v (all stuck operations: %v); library goroutines:\n%s", stuck[op], op, c16Stall, stuck, c16LibStacks())
+				c16Viol(m, "C16:hang:"+op, desc, "%d goroutine(s) inside %s made no progress for %v (all stuck operations: %v); library goroutines:\n%s", stuck[op], op, c16Stall, stuck, c16LibStacks())
 				return st, false
 			}
 		}
@@ -176,7 +176,7 @@ func c16RunScenario(m *vk.M, idx int, sc c16Scenario) (st c16Stats, ok bool) {
 	// been executed
 	fw := c16WaitRec{who: -1, begin: vk.Seq()}
 	if !c16Call(s.waitFn) {
-		m.Violate("C16:hang:wait", desc, "final Wait made no progress for %v; library goroutines:\n%s", c16Stall, c16LibStacks())
+		c16Viol(m, "C16:hang:wait", desc, "final Wait made no progress for %v; library goroutines:\n%s", c16Stall, c16LibStacks())
 		return st, false
 	}
 	fw.end = vk.Seq()
@@ -224,6 +224,7 @@ func c16Stress(t *testing.T, m *vk.M, n int) {
 	r := m.Rand("stress")
 	orders := map[string]struct{}{}
 	procs := 0
+	base := atomic.LoadInt64(&c16Costly)
 	for idx := 1; idx <= n; idx++ {
 		sc := c16Gen(r, idx)
 		if !m.Only(idx) {
@@ -234,8 +235,8 @@ func c16Stress(t *testing.T, m *vk.M, n int) {
 			runtime.GOMAXPROCS(procs)
 		}
 		v0 := m.ViolCount()
-		if v0 >= c16EnoughWitnesses {
-			m.Note("stopped before case %d: %d violating scenarios recorded, enough witnesses", idx, v0)
+		if c16Enough(base) {
+			m.Note("stopped before case %d: enough witnesses (%d violating scenarios)", idx, v0)
 			break
 		}
 		st, ok := c16RunScenario(m, idx, sc)
